@@ -36,6 +36,9 @@ class Contract:
         self.extent_cap = holder.__dict__.get("extent_cap", 4 if self.bounded else None)
         # standin: the function is known to be outside the interpreter's subset; the cross-check on the real code decides it
         self.standin = bool(holder.__dict__.get("standin", False))
+        # fp_exact: the clauses only compare machine floats computed exactly as the code computes them, so they must also hold
+        # bit-for-bit on binary64 inputs that are not dyadic (decimal literals) -- sampled by the cross-check
+        self.fp_exact = bool(holder.__dict__.get("fp_exact", False))
         self.max_paths = holder.__dict__.get("max_paths", 400)
         self.ensures = []      # (name, f(a, old, result))
         self.raises = []       # (exc type, name, when(a_old), state clause f(a, old) or None)
@@ -669,7 +672,7 @@ def model_from_json(m):
     return out
 
 
-def sample_models(I, c, cfg, n, seed):
+def sample_models(I, c, cfg, n, seed, decimal=False):
     """n models of the contract's requires (the path condition after building the inputs), spread by pinning random
     subsets of the symbols to random small dyadic values."""
     import random
@@ -694,6 +697,13 @@ def sample_models(I, c, cfg, n, seed):
         for name, (sort, t) in syms:
             if sort == "real":
                 kk = z3.Int(name + "$k")
+                if decimal:
+                    # decimal literals (k/10, k/100): NOT exactly representable in binary64 -- rounding cases of the real code
+                    den = rnd.choice((10, 10, 100, 1000))
+                    s.add(t * den == z3.ToReal(kk), kk >= -20 * den, kk <= 20 * den)
+                    if rnd.random() < 0.7:
+                        pins.append(t == z3.RealVal(rnd.randint(-50, 50)) / 10)
+                    continue
                 s.add(t * 8 == z3.ToReal(kk), kk >= -64, kk <= 64)
                 if rnd.random() < 0.6:
                     pins.append(t == z3.RealVal(rnd.randint(-16, 16)) / 4)
@@ -718,10 +728,11 @@ def sample_models(I, c, cfg, n, seed):
     return models, b
 
 
-def cross_check(I, c, cfg, n, seed, res):
+def cross_check(I, c, cfg, n, seed, res, decimal=False):
     """CPython cross-check / bounded stand-in: run the REAL function on sampled concrete inputs and evaluate every
-    clause of the contract concretely.  Never counted as proved."""
-    models, b = sample_models(I, c, cfg, n, seed)
+    clause of the contract concretely.  Never counted as proved.  decimal=True samples decimal literals (inexact in
+    binary64) for contracts whose clauses are exact comparisons also on machine floats (fp_exact = True)."""
+    models, b = sample_models(I, c, cfg, n, seed, decimal)
     ran = failed = 0
     for mv in models:
         try:
@@ -735,7 +746,7 @@ def cross_check(I, c, cfg, n, seed, res):
         if rp["failed"]:
             failed += 1
             kind, name = rp["failed"][0]
-            res.obligations.append({"name": f"{c.name}#sample:{name}@{cfg_id(cfg)}/real-code", "kind": "sample", "clause": name,
+            res.obligations.append({"name": f"{c.name}#sample{'-decimal' if decimal else ''}:{name}@{cfg_id(cfg)}/real-code", "kind": "sample", "clause": name,
                                     "config": cfg_id(cfg), "path": "real-code", "status": "refuted", "ms": 0, "hyps": 0, "mode": "concrete",
                                     "bounded": True, "model": jsonable_model(mv), "replayed": True,
                                     "replay": {"failed": [list(x) for x in rp["failed"]], "outcome": rp["outcome"], "inexact": [], "detail": rp.get("detail", {})}})
@@ -830,6 +841,8 @@ def verify(cname, cfg, timeout_ms=20000, seed=0, repo_src=None, samples=0):
     if n:
         try:
             cross_check(I, c, cfg, n, seed, res)
+            if c.fp_exact:
+                cross_check(I, c, cfg, max(n, 25), seed + 1, res, decimal=True)
         except Exception as e:
             res.sample_errors.append(f"cross-check crashed: {type(e).__name__}: {e}")
     return res
